@@ -1184,3 +1184,874 @@ Proof.
     unfold io_done. destruct (s_io s2); [|discriminate]. right; left. simpl. apply in_or_app; right; simpl; auto.
   - rewrite Q2 in A. destruct A.
 Qed.
+
+(* ------------------------------------------------------------------------------------------ *)
+(* a finished writer whose buffer is still open has its close_handle callback queued          *)
+(* ------------------------------------------------------------------------------------------ *)
+Definition Cl (s : state) : Prop :=
+  forall i w, nth_error (s_ws s) i = Some w -> w_open w = true -> fut_done (w_fut w) = true -> In (QClose i) (s_q s).
+
+Lemma Cl_grow s s' : s_ws s' = s_ws s -> (forall it, In it (s_q s) -> In it (s_q s')) -> Cl s -> Cl s'.
+Proof. intros E Q C i w Hn O D. rewrite E in Hn. apply Q. eapply C; eauto. Qed.
+
+Lemma Cl_app_w len g j s : wtrans len g -> Cl s -> Cl (app_w g j s).
+Proof.
+  intros Wt C. unfold app_w. destruct (nth_error (s_ws s) j) eqn:Hj; auto.
+  destruct (g w) as [w' fl] eqn:Eg. intros i x Hn O D. simpl in *.
+  apply nth_error_upd_cases in Hn. destruct Hn as [(-> & -> & _)|(Hne & Hn)].
+  - assert (Ew : w' = fst (g w)) by (rewrite Eg; auto).
+    destruct fl.
+    + apply in_or_app; right. simpl; auto.
+    + apply in_or_app; left. apply (C j w); auto.
+      * apply (wt_open _ _ Wt). congruence.
+      * pose proof (wt_nofire _ _ Wt w) as P. rewrite Eg in P. simpl in P. rewrite <- P; auto.
+  - apply in_or_app; left. eapply C; eauto.
+Qed.
+
+Lemma Cl_fold {A} (g : A -> state -> state) l s :
+  (forall x st, Cl st -> Cl (g x st)) -> Cl s -> Cl (fold_right g s l).
+Proof. intros Hg Hs. induction l; simpl; auto. Qed.
+
+Lemma Cl_close_others i s : Cl s -> Cl (close_others i s).
+Proof.
+  intros C. unfold close_others. eapply Cl_grow; [reflexivity|auto|].
+  apply Cl_fold; auto. intros x st Hst. destruct (Nat.eqb (snd x) i); auto.
+  eapply Cl_app_w; eauto. apply (wtrans_close None).
+Qed.
+
+Lemma Cl_close_blob s : Cl s -> Cl (close_blob s).
+Proof.
+  intros C. unfold close_blob. eapply Cl_grow; [reflexivity|auto|].
+  apply Cl_fold; auto. intros x st Hst. eapply Cl_app_w; eauto. apply (wtrans_cancel None).
+Qed.
+
+Lemma Cl_run_item it r s : Cl s -> s_q s = it :: r -> Cl (run_item kd cb it (set_q r s)).
+Proof.
+  intros C Eq.
+  assert (C0 : (forall j, it <> QClose j) -> Cl (set_q r s)).
+  { intros Hne i w Hn O D. simpl in *. pose proof (C i w Hn O D) as X. rewrite Eq in X.
+    destruct X as [X|X]; auto. exfalso; eapply Hne; eauto. }
+  destruct it.
+  - (* QClose i *)
+    simpl. unfold close_handle, app_w. change (s_ws (set_q r s)) with (s_ws s).
+    destruct (nth_error (s_ws s) i) eqn:Hi.
+    2:{ intros j w Hn O D. simpl in *. pose proof (C j w Hn O D) as X. rewrite Eq in X.
+        destruct X as [X|X]; auto. inversion X; subst. congruence. }
+    destruct (close_handle_w w) as [w' fl] eqn:Ec. intros j x Hn O D. simpl in *.
+    apply nth_error_upd_cases in Hn. destruct Hn as [(-> & -> & _)|(Hne & Hn)].
+    + unfold close_handle_w in Ec. destruct (fut_done (w_fut w)); inversion Ec; subst; simpl in O; discriminate.
+    + pose proof (C j x Hn O D) as X. rewrite Eq in X. apply in_or_app; left.
+      destruct X as [X|X]; auto. inversion X; subst; contradiction.
+  - simpl. apply Cl_grow with (s := set_q r s); [reflexivity|auto|]. apply C0; intros; discriminate.
+  - simpl. change (s_ws (set_q r s)) with (s_ws s).
+    assert (C1 : Cl (set_q r s)) by (apply C0; intros; discriminate).
+    destruct (nth_error (s_ws s) i); auto. destruct (w_fut w); auto.
+    eapply Cl_grow; [apply save_verified_ws| |apply Cl_close_others; eauto].
+    intros it Hin. unfold save_verified. destruct (s_verified _); auto. destruct (writeable _ _); auto.
+    simpl. apply in_or_app; auto.
+  - assert (C1 : Cl (set_q r s)) by (apply C0; intros; discriminate). simpl.
+    destruct kd. apply Cl_grow with (s := set_q r s); [reflexivity|auto|auto].
+    change (s_store (set_q r s)) with (s_store s).
+    destruct (s_store s); (apply Cl_grow with (s := set_q r s); [reflexivity| |exact C1]); intros it Hin; simpl; apply in_or_app; auto.
+  - assert (C1 : Cl (set_q r s)) by (apply C0; intros; discriminate). simpl.
+    apply Cl_grow with (s := set_q r s); [reflexivity| |exact C1]. intros it Hin; simpl; apply in_or_app; auto.
+  - apply C0; intros; discriminate.
+  - assert (C1 : Cl (set_q r s)) by (apply C0; intros; discriminate). simpl.
+    apply Cl_grow with (s := set_q r s); [reflexivity| |exact C1]. intros it Hin; simpl; apply in_or_app; auto.
+  - assert (C1 : Cl (set_q r s)) by (apply C0; intros; discriminate). simpl.
+    apply Cl_grow with (s := set_q r s); [reflexivity|auto|exact C1].
+  - assert (C1 : Cl (set_q r s)) by (apply C0; intros; discriminate). simpl.
+    apply Cl_grow with (s := set_q r s); [reflexivity|auto|exact C1].
+Qed.
+
+Lemma Cl_step1 s : Cl s -> Cl (step1 kd cb s).
+Proof. intros C. unfold step1. destruct (s_q s) eqn:Eq; auto. apply Cl_run_item; auto. Qed.
+
+Lemma Cl_iter n s : Cl s -> Cl (iter kd cb n s).
+Proof. revert s; induction n; simpl; auto. intros; apply IHn. apply Cl_step1; auto. Qed.
+
+Lemma Cl_step o s : Cl s -> Cl (fst (step o s)).
+Proof.
+  intros C. destruct o; simpl.
+  - eapply Cl_grow; [| |exact C]; unfold set_length; destruct (s_len s); auto;
+      destruct ((0 <=? n)%Z && (n <=? Z.of_N MAX_BLOB_SIZE)%Z); auto.
+  - unfold open_writer. destruct (file_exists kd s); simpl; auto.
+    match goal with |- context [if ?c then _ else _] => destruct c end; simpl; auto.
+    intros i w Hn O D. simpl in *.
+    destruct (Nat.lt_ge_cases i (length (s_ws s))) as [Hi|Hi].
+    + rewrite nth_error_app1 in Hn by auto. eapply C; eauto.
+    + rewrite nth_error_app2 in Hn by auto. destruct (i - length (s_ws s))%nat as [|n0]; simpl in Hn.
+      * inversion Hn; subst w. simpl in D. discriminate.
+      * destruct n0; discriminate.
+  - unfold write. destruct (nth_error (s_ws s) i); simpl; auto. eapply Cl_app_w; eauto. apply wtrans_write.
+  - eapply Cl_app_w; eauto. apply (wtrans_close None).
+  - apply Cl_close_blob; auto.
+  - apply Cl_iter; auto.
+  - apply Cl_iter; auto.
+  - eapply Cl_grow; [| |exact C]; unfold io_done; destruct (s_io s); auto. intros it Hin. simpl. apply in_or_app; auto.
+Qed.
+
+Lemma Cl_run ops s : Cl s -> Cl (run ops s).
+Proof. revert s; induction ops; simpl; auto. intros; apply IHops. apply Cl_step; auto. Qed.
+
+Lemma Cl_init : Cl init.
+Proof. intros i w Hn. destruct i; discriminate. Qed.
+
+(* nothing pending, nothing queued: every writer is closed *)
+Lemma all_closed s : Cl s -> NP s -> s_q s = [] ->
+  forall i w, nth_error (s_ws s) i = Some w -> w_open w = false /\ fut_done (w_fut w) = true.
+Proof.
+  intros C Np Q i w Hn. split; [|eapply Np; eauto].
+  destruct (w_open w) eqn:O; auto. exfalso. pose proof (C i w Hn O (Np i w Hn)) as X. rewrite Q in X. destruct X.
+Qed.
+
+(* ------------------------------------------------------------------------------------------ *)
+(* the writers map; registration of pending writers under the re-open discipline              *)
+(* ------------------------------------------------------------------------------------------ *)
+Lemma in_keys (m : list (N * nat)) k j : In (k, j) m -> In k (map fst m).
+Proof. intros Hin. change k with (fst (k, j)). apply in_map; auto. Qed.
+
+Lemma In_map_set k i m k' j : NoDup (map fst m) ->
+  In (k', j) (map_set k i m) -> (k' = k /\ j = i) \/ (k' <> k /\ In (k', j) m).
+Proof.
+  induction m as [|[k0 j0] m IH]; simpl; intros Nd.
+  - intros [E|[]]. inversion E; auto.
+  - inversion Nd; subst. destruct (N.eqb_spec k0 k) as [->|Hne]; simpl.
+    + intros [E|E]. inversion E; auto.
+      right. split; auto. intros ->. apply H2. eapply in_keys; eauto.
+    + intros [E|E]. inversion E; subst. right; split; auto.
+      destruct (IH H3 E) as [X|(X1 & X2)]; auto.
+Qed.
+
+Lemma In_map_set_new k i m : In (k, i) (map_set k i m).
+Proof.
+  induction m as [|[k0 j0] m IH]; simpl; auto.
+  destruct (N.eqb_spec k0 k); simpl; auto.
+Qed.
+
+Lemma In_map_set_other k i m k' j : k' <> k -> In (k', j) m -> In (k', j) (map_set k i m).
+Proof.
+  intros Hne. induction m as [|[k0 j0] m IH]; simpl; auto.
+  destruct (N.eqb_spec k0 k) as [->|Hn]; simpl.
+  - intros [E|E]; auto. inversion E; subst; contradiction.
+  - intros [E|E]; auto.
+Qed.
+
+Lemma keys_map_set k i m x : In x (map fst (map_set k i m)) -> x = k \/ In x (map fst m).
+Proof.
+  induction m as [|[k0 j0] m IH]; simpl.
+  - intros [E|[]]; auto.
+  - destruct (N.eqb_spec k0 k) as [->|Hn]; simpl.
+    + intros [E|E]; auto.
+    + intros [E|E]; auto. destruct (IH E); auto.
+Qed.
+
+Lemma NoDup_map_set k i m : NoDup (map fst m) -> NoDup (map fst (map_set k i m)).
+Proof.
+  induction m as [|[k0 j0] m IH]; simpl; intros Nd.
+  - constructor; auto; constructor.
+  - inversion Nd; subst. destruct (N.eqb_spec k0 k) as [->|Hn]; simpl.
+    + constructor; auto.
+    + constructor; auto. intros X. apply keys_map_set in X. destruct X; auto.
+Qed.
+
+Lemma In_map_del k m k' j : In (k', j) (map_del k m) -> In (k', j) m.
+Proof.
+  induction m as [|[k0 j0] m IH]; simpl; auto.
+  destruct (N.eqb_spec k0 k); simpl; auto. intros [E|E]; auto.
+Qed.
+
+Lemma In_map_del_other k m k' j : k' <> k -> In (k', j) m -> In (k', j) (map_del k m).
+Proof.
+  intros Hne. induction m as [|[k0 j0] m IH]; simpl; auto.
+  destruct (N.eqb_spec k0 k) as [->|Hn]; simpl.
+  - intros [E|E]; auto. inversion E; subst; contradiction.
+  - intros [E|E]; auto.
+Qed.
+
+Lemma NoDup_map_del k m : NoDup (map fst m) -> NoDup (map fst (map_del k m)).
+Proof.
+  induction m as [|[k0 j0] m IH]; simpl; intros Nd; auto.
+  inversion Nd; subst. destruct (N.eqb_spec k0 k); simpl; auto.
+  constructor; auto. intros X. apply H2. apply in_map_iff in X. destruct X as ([a b] & E1 & E2).
+  simpl in E1; subst a. apply In_map_del in E2. eapply in_keys; eauto.
+Qed.
+
+Lemma NoDup_keys_inj (m : list (N * nat)) k a b : NoDup (map fst m) -> In (k, a) m -> In (k, b) m -> a = b.
+Proof.
+  induction m as [|[k0 j0] m IH]; simpl; intros Nd; [tauto|].
+  inversion Nd; subst. intros [E1|E1] [E2|E2].
+  - congruence.
+  - inversion E1; subst. exfalso. apply H2. eapply in_keys; eauto.
+  - inversion E2; subst. exfalso. apply H2. eapply in_keys; eauto.
+  - auto.
+Qed.
+
+Lemma lookup_In k j m : NoDup (map fst m) -> In (k, j) m -> lookup k m = Some j.
+Proof.
+  induction m as [|[k0 j0] m IH]; simpl; intros Nd; [tauto|].
+  inversion Nd; subst. intros [E|E].
+  - inversion E; subst. rewrite N.eqb_refl. auto.
+  - destruct (N.eqb_spec k0 k) as [->|Hn]; auto. exfalso. apply H2. eapply in_keys; eauto.
+Qed.
+
+Definition Reg (s : state) : Prop :=
+  NoDup (map fst (s_map s))
+  /\ (forall i w, nth_error (s_ws s) i = Some w -> w_fut w = FPending -> In (w_key w, i) (s_map s))
+  /\ (forall k j w, In (QRemove k) (s_q s) -> In (k, j) (s_map s) -> nth_error (s_ws s) j = Some w ->
+       fut_done (w_fut w) = true)
+  /\ (forall k j, In (k, j) (s_map s) -> (j < length (s_ws s))%nat).
+
+Lemma Reg_init : Reg init.
+Proof. unfold Reg, init; simpl. repeat split; try tauto. constructor. intros [|i]; discriminate. Qed.
+
+Lemma Reg_app_w len g j s : wtrans len g -> Reg s -> Reg (app_w g j s).
+Proof.
+  intros Wt (R1 & R2 & R3 & R4). unfold app_w. destruct (nth_error (s_ws s) j) eqn:Hj; [|repeat split; auto].
+  destruct (g w) as [w' fl] eqn:Eg. assert (Ew : w' = fst (g w)) by (rewrite Eg; auto).
+  assert (Efl : fl = snd (g w)) by (rewrite Eg; auto).
+  unfold Reg; simpl. repeat split; auto.
+  - intros i x Hn P. apply nth_error_upd_cases in Hn. destruct Hn as [(-> & -> & _)|(Hne & Hn)]; auto.
+    rewrite Ew in *. rewrite (wt_key _ _ Wt). apply R2; auto.
+    destruct (fut_done (w_fut w)) eqn:D.
+    + destruct (wtrans_done_keeps _ _ _ Wt D) as (X & _). congruence.
+    + apply fut_done_false; auto.
+  - intros k j' x Hq Hm Hn. apply in_app_or in Hq.
+    apply nth_error_upd_cases in Hn. destruct Hq as [Hq|Hq].
+    + destruct Hn as [(-> & -> & _)|(Hne & Hn)]; [|eapply R3; eauto].
+      pose proof (R3 k j w Hq Hm Hj) as D. destruct (wtrans_done_keeps _ _ _ Wt D) as (X & _). rewrite Ew, X; auto.
+    + destruct fl; simpl in Hq; [|tauto]. destruct Hq as [Hq|[Hq|[Hq|[]]]]; try discriminate.
+      inversion Hq; subst k. destruct (wt_fire _ _ Wt w) as (P1 & P2); [congruence|].
+      assert (j' = j) by (eapply NoDup_keys_inj; eauto). subst j'.
+      destruct Hn as [(_ & -> & _)|(Hne & _)]; [|contradiction]. rewrite Ew; auto.
+  - intros k j' Hm. rewrite upd_length. eauto.
+Qed.
+
+Lemma Reg_fold {A} (g : A -> state -> state) l s :
+  (forall x st, Reg st -> Reg (g x st)) -> Reg s -> Reg (fold_right g s l).
+Proof. intros Hg Hs. induction l; simpl; auto. Qed.
+
+Lemma cancel_w_done w : fut_done (w_fut (fst (cancel_w w))) = true.
+Proof. unfold cancel_w. destruct (fut_done (w_fut w)) eqn:D; simpl; auto. Qed.
+Lemma close_handle_w_done w : fut_done (w_fut (fst (close_handle_w w))) = true.
+Proof. unfold close_handle_w. destruct (fut_done (w_fut w)) eqn:D; simpl; auto. Qed.
+
+Lemma app_w_done g j s : (forall w, fut_done (w_fut (fst (g w))) = true) ->
+  forall w, nth_error (s_ws (app_w g j s)) j = Some w -> fut_done (w_fut w) = true.
+Proof.
+  intros Hg w. unfold app_w. destruct (nth_error (s_ws s) j) eqn:Hj; [|congruence].
+  destruct (g w0) as [w' fl] eqn:Eg. simpl. erewrite nth_error_upd_eq by eauto. intros E; inversion E; subst.
+  replace w with (fst (g w0)) by (rewrite Eg; auto). auto.
+Qed.
+
+Lemma done_mono s s' j : wmono s s' -> length (s_ws s') = length (s_ws s) ->
+  (forall w, nth_error (s_ws s) j = Some w -> fut_done (w_fut w) = true) ->
+  (forall w, nth_error (s_ws s') j = Some w -> fut_done (w_fut w) = true).
+Proof.
+  intros M Ln Hd w' Hn.
+  assert (Hi : (j < length (s_ws s))%nat) by (rewrite <- Ln; apply nth_error_Some; congruence).
+  destruct (nth_error (s_ws s) j) as [w|] eqn:Hw; [|apply nth_error_None in Hw; lia].
+  destruct (M j w Hw) as (w2 & N2 & _ & F2 & _). rewrite Hn in N2. inversion N2; subst w2.
+  rewrite F2; auto.
+Qed.
+
+(* after the popitem loops every registered writer (except the winner) is done *)
+Lemma fold_cancel_done m s j : In j (map snd m) ->
+  forall w, nth_error (s_ws (fold_right (fun (kj : N * nat) st => cancel (snd kj) st) s m)) j = Some w -> fut_done (w_fut w) = true.
+Proof.
+  induction m as [|[k0 j0] m IH]; simpl; [tauto|]. intros [E|E].
+  - subst j0. apply app_w_done. apply cancel_w_done.
+  - eapply done_mono; [eapply wmono_app_w; apply (wtrans_cancel None)|apply app_w_nws|]. apply IH; auto.
+Qed.
+
+Lemma fold_close_done i m s j : In j (map snd m) -> j <> i ->
+  forall w, nth_error (s_ws (fold_right (fun (kj : N * nat) st => if Nat.eqb (snd kj) i then st else close_handle (snd kj) st) s m)) j = Some w ->
+  fut_done (w_fut w) = true.
+Proof.
+  intros Hin Hne. induction m as [|[k0 j0] m IH]; simpl in *; [tauto|]. destruct Hin as [E|E].
+  - subst j0. destruct (Nat.eqb_spec j i); [contradiction|]. apply app_w_done. apply close_handle_w_done.
+  - destruct (Nat.eqb j0 i); auto.
+    eapply done_mono; [eapply wmono_app_w; apply (wtrans_close None)|apply app_w_nws|]. apply IH; auto.
+Qed.
+
+Lemma in_snd (m : list (N * nat)) k j : In (k, j) m -> In j (map snd m).
+Proof. intros Hin. change j with (snd (k, j)). apply in_map; auto. Qed.
+
+Lemma NP_close_blob s : Reg s -> NP (close_blob s).
+Proof.
+  intros (R1 & R2 & R3 & R4) i w' Hn. unfold close_blob in Hn. simpl in Hn.
+  set (s' := fold_right (fun (kj : N * nat) st => cancel (snd kj) st) s (s_map s)) in *.
+  assert (M : wmono s s') by (apply wmono_fold; intros; eapply wmono_app_w; apply (wtrans_cancel None)).
+  assert (Ln : length (s_ws s') = length (s_ws s)) by (apply fold_nws; intros; apply app_w_nws).
+  assert (Hi : (i < length (s_ws s))%nat) by (rewrite <- Ln; apply nth_error_Some; congruence).
+  destruct (nth_error (s_ws s) i) as [w|] eqn:Hw; [|apply nth_error_None in Hw; lia].
+  destruct (fut_done (w_fut w)) eqn:D.
+  - destruct (M i w Hw) as (w2 & N2 & _ & F2 & _). rewrite Hn in N2. inversion N2; subst. rewrite F2; auto.
+  - apply fut_done_false in D. pose proof (R2 i w Hw D) as X. eapply fold_cancel_done; eauto. eapply in_snd; eauto.
+Qed.
+
+Lemma NP_close_others i s : Reg s -> (forall w, nth_error (s_ws s) i = Some w -> fut_done (w_fut w) = true) ->
+  NP (close_others i s).
+Proof.
+  intros (R1 & R2 & R3 & R4) Di j w' Hn. unfold close_others in Hn. simpl in Hn.
+  set (g := fun (kj : N * nat) st => if Nat.eqb (snd kj) i then st else close_handle (snd kj) st) in *.
+  set (s' := fold_right g s (s_map s)) in *.
+  assert (M : wmono s s').
+  { apply wmono_fold. intros x st. unfold g. destruct (Nat.eqb (snd x) i). apply wmono_refl.
+    eapply wmono_app_w; apply (wtrans_close None). }
+  assert (Ln : length (s_ws s') = length (s_ws s)).
+  { apply fold_nws. intros x st. unfold g. destruct (Nat.eqb (snd x) i); auto. apply app_w_nws. }
+  assert (Hi : (j < length (s_ws s))%nat) by (rewrite <- Ln; apply nth_error_Some; congruence).
+  destruct (nth_error (s_ws s) j) as [w|] eqn:Hw; [|apply nth_error_None in Hw; lia].
+  destruct (fut_done (w_fut w)) eqn:D.
+  - destruct (M j w Hw) as (w2 & N2 & _ & F2 & _). rewrite Hn in N2. inversion N2; subst. rewrite F2; auto.
+  - assert (Hne : j <> i). { intros ->. rewrite (Di w Hw) in D. discriminate. }
+    apply fut_done_false in D. pose proof (R2 j w Hw D) as X.
+    eapply (fold_close_done i (s_map s) s j); eauto. eapply in_snd; eauto.
+Qed.
+
+Lemma Reg_of_NP s : NP s -> s_map s = [] -> Reg s.
+Proof.
+  intros Np Em. unfold Reg. rewrite Em. simpl. repeat split; try tauto. constructor.
+  intros i w Hn P. pose proof (Np i w Hn) as D. rewrite P in D. discriminate.
+Qed.
+
+Lemma NP_ws s s' : s_ws s' = s_ws s -> NP s -> NP s'.
+Proof. intros E Np i w Hn. rewrite E in Hn. eauto. Qed.
+
+Lemma Reg_sub s q' : (forall it, In it q' -> In it (s_q s)) -> Reg s -> Reg (set_q q' s).
+Proof. intros Q (R1 & R2 & R3 & R4). unfold Reg; simpl. repeat split; auto. intros; eapply R3; eauto. Qed.
+
+Lemma Reg_grow_q s s' : s_ws s' = s_ws s -> s_map s' = s_map s ->
+  (forall k, In (QRemove k) (s_q s') -> In (QRemove k) (s_q s)) -> Reg s -> Reg s'.
+Proof.
+  intros E1 E2 Q (R1 & R2 & R3 & R4). unfold Reg. rewrite E1, E2. repeat split; auto. intros; eapply R3; eauto.
+Qed.
+
+Lemma Reg_run_item it r s : Reg s -> s_q s = it :: r -> Reg (run_item kd cb it (set_q r s)).
+Proof.
+  intros R Eq.
+  assert (R0 : Reg (set_q r s)). { apply Reg_sub; auto. intros x Hx. rewrite Eq. right; auto. }
+  destruct it; simpl.
+  - eapply Reg_app_w; eauto. apply (wtrans_close None).
+  - destruct R as (R1 & R2 & R3 & R4). unfold Reg; simpl. repeat split.
+    + apply NoDup_map_del; auto.
+    + intros i w Hn P. apply In_map_del_other; auto. intros E.
+      assert (D : fut_done (w_fut w) = true). { eapply (R3 k i w); eauto. rewrite Eq; left; auto. rewrite <- E; auto. }
+      rewrite P in D; discriminate.
+    + intros k' j w Hq Hm Hn. apply In_map_del in Hm. eapply R3; eauto. rewrite Eq; right; auto.
+    + intros k' j Hm. apply In_map_del in Hm. eauto.
+  - change (s_ws (set_q r s)) with (s_ws s). destruct (nth_error (s_ws s) i) eqn:Hi; auto.
+    destruct (w_fut w) eqn:Ef; auto.
+    assert (Np : NP (close_others i (set_q r s))).
+    { apply NP_close_others; auto. simpl. intros w0 Hw0. rewrite Hi in Hw0. inversion Hw0; subst. rewrite Ef; auto. }
+    apply Reg_of_NP.
+    + eapply NP_ws; [apply save_verified_ws|auto].
+    + unfold save_verified. destruct (s_verified _); auto. destruct (writeable _ _); auto.
+  - destruct kd.
+    + eapply Reg_grow_q; [| | |exact R0]; auto.
+    + change (s_store (set_q r s)) with (s_store s).
+      destruct (s_store s); (eapply Reg_grow_q; [| | |exact R0]; auto); simpl; intros k Hq;
+        apply in_app_or in Hq; destruct Hq as [Hq|Hq]; auto; unfold done_cbs in Hq; destruct cb; simpl in Hq; intuition discriminate.
+  - eapply Reg_grow_q; [| | |exact R0]; auto. simpl. intros k Hq.
+    apply in_app_or in Hq; destruct Hq as [Hq|Hq]; auto. simpl in Hq; intuition discriminate.
+  - auto.
+  - eapply Reg_grow_q; [| | |exact R0]; auto. simpl. intros k Hq.
+    apply in_app_or in Hq; destruct Hq as [Hq|Hq]; auto. unfold done_cbs in Hq; destruct cb; simpl in Hq; intuition discriminate.
+  - eapply Reg_grow_q; [| | |exact R0]; auto.
+  - eapply Reg_grow_q; [| | |exact R0]; auto.
+Qed.
+
+Lemma Reg_step1 s : Reg s -> Reg (step1 kd cb s).
+Proof. intros R. unfold step1. destruct (s_q s) eqn:Eq; auto. apply Reg_run_item; auto. Qed.
+
+Lemma Reg_iter n s : Reg s -> Reg (iter kd cb n s).
+Proof. revert s; induction n; simpl; auto. intros; apply IHn. apply Reg_step1; auto. Qed.
+
+(* the discipline: a peer is not re-opened while the remove_writer callback of its previous (finished)
+   writer is still in the ready queue *)
+Definition ok_op (s : state) (o : op) : Prop :=
+  match o with Open k => ~ In (QRemove k) (s_q s) | _ => True end.
+
+Lemma Reg_open k s : Inv s -> Reg s -> ~ In (QRemove k) (s_q s) -> Reg (fst (open_writer kd k s)).
+Proof.
+  intros I (R1 & R2 & R3 & R4) Hno. unfold open_writer. destruct (file_exists kd s); simpl; [repeat split; auto|].
+  match goal with |- context [if ?c then _ else _] => destruct c eqn:Busy end; simpl; [repeat split; auto|].
+  unfold Reg; simpl. repeat split.
+  - apply NoDup_map_set; auto.
+  - intros i w Hn P. destruct (Nat.lt_ge_cases i (length (s_ws s))) as [Hi|Hi].
+    + rewrite nth_error_app1 in Hn by auto. pose proof (R2 i w Hn P) as X.
+      destruct (N.eq_dec (w_key w) k) as [Ek|Ek]; [|apply In_map_set_other; auto].
+      exfalso. rewrite Ek in X. rewrite (lookup_In _ _ _ R1 X), Hn in Busy.
+      destruct I as (_ & I2 & _). destruct (Forall_nth _ _ _ _ I2 Hn) as (_ & _ & C & _).
+      apply C; auto.
+    + rewrite nth_error_app2 in Hn by auto. destruct (i - length (s_ws s))%nat as [|n0] eqn:En; simpl in Hn.
+      * inversion Hn; subst w. simpl. replace i with (length (s_ws s)) by lia. apply In_map_set_new.
+      * destruct n0; discriminate.
+  - intros k' j w Hq Hm Hn. apply In_map_set in Hm; auto. destruct Hm as [(-> & ->)|(Hne & Hm)]; [contradiction|].
+    pose proof (R4 _ _ Hm) as Hj. rewrite nth_error_app1 in Hn by auto. eapply R3; eauto.
+  - intros k' j Hm. rewrite app_length. simpl. apply In_map_set in Hm; auto.
+    destruct Hm as [(-> & ->)|(Hne & Hm)]; [lia|]. pose proof (R4 _ _ Hm). lia.
+Qed.
+
+Lemma Reg_close_blob s : Reg s -> Reg (close_blob s).
+Proof. intros R. apply Reg_of_NP. apply NP_close_blob; auto. reflexivity. Qed.
+
+Lemma Reg_step o s : Inv s -> Reg s -> ok_op s o -> Reg (fst (step o s)).
+Proof.
+  intros I R Ok. destruct o; simpl in *.
+  - eapply Reg_grow_q; [| | |exact R]; unfold set_length; destruct (s_len s); auto;
+      destruct ((0 <=? n)%Z && (n <=? Z.of_N MAX_BLOB_SIZE)%Z); auto.
+  - apply Reg_open; auto.
+  - unfold write. destruct (nth_error (s_ws s) i); simpl; auto. eapply Reg_app_w; eauto. apply wtrans_write.
+  - eapply Reg_app_w; eauto. apply (wtrans_close None).
+  - apply Reg_close_blob; auto.
+  - apply Reg_iter; auto.
+  - apply Reg_iter; auto.
+  - eapply Reg_grow_q; [| | |exact R]; unfold io_done; destruct (s_io s); auto.
+    simpl. intros k Hq. apply in_app_or in Hq; destruct Hq as [Hq|Hq]; auto. simpl in Hq; intuition discriminate.
+Qed.
+
+Fixpoint disciplined (ops : list op) (s : state) : Prop :=
+  match ops with
+  | [] => True
+  | o :: r => ok_op s o /\ disciplined r (fst (step o s))
+  end.
+
+Lemma Reg_run ops : forall s, Inv s -> Reg s -> disciplined ops s -> Reg (run ops s).
+Proof.
+  induction ops; simpl; auto. intros s I R (Ok & D). apply IHops; auto. apply Inv_step; auto. apply Reg_step; auto.
+Qed.
+
+(* the winner's callback closes every registered writer: nothing stays pending *)
+Definition PW (s : state) : Prop := NP s \/ won s.
+
+Lemma PW_step1 s : Reg s -> PW s -> PW (step1 kd cb s).
+Proof.
+  intros R [Np|Wn].
+  - left. eapply NP_mono; [apply wmono_step1|apply step1_nws|auto].
+  - unfold step1. destruct (s_q s) as [|it r] eqn:Eq; [right; auto|].
+    destruct Wn as (i & w & b & A & B & C). rewrite Eq in A. destruct A as [A|A].
+    + subst it. left. simpl. change (s_ws (set_q r s)) with (s_ws s). rewrite B, C.
+      eapply NP_ws; [apply save_verified_ws|]. apply NP_close_others.
+      * apply Reg_sub; auto. intros x Hx. rewrite Eq; right; auto.
+      * simpl. intros w0 Hw0. rewrite B in Hw0. inversion Hw0; subst. rewrite C; auto.
+    + right. destruct (run_item_q it (set_q r s)) as (l & Q).
+      eapply won_mono; [apply wmono_run_item| |exists i, w, b; repeat split; eauto].
+      intros it' Hin. rewrite Q. apply in_or_app; auto.
+Qed.
+
+Lemma PW_iter n s : Reg s -> PW s -> PW (iter kd cb n s).
+Proof. revert s; induction n; simpl; auto. intros. apply IHn. apply Reg_step1; auto. apply PW_step1; auto. Qed.
+
+Lemma PW_quiescent s : PW s -> s_q s = [] -> NP s.
+Proof. intros [Np|(i & _ & _ & A & _)] Q; auto. rewrite Q in A. destruct A. Qed.
+
+(* ------------------------------------------------------------------------------------------ *)
+(* assembled statements                                                                       *)
+(* ------------------------------------------------------------------------------------------ *)
+Lemma reach_all ops : let s := run ops init in Inv s /\ Inv2 s /\ Cl s.
+Proof.
+  simpl. split; [|split]. apply Inv_run, Inv_init. apply Inv2_run, Inv2_init. apply Cl_run, Cl_init.
+Qed.
+
+(* the state right after a live writer received the bytes completing a correct copy *)
+Lemma winning_write ops i w d L :
+  let s := run ops init in
+  nth_error (s_ws s) i = Some w -> w_open w = true -> w_fut w = FPending -> s_len s = Some L -> (0 < L)%N ->
+  N.of_nat (length (w_buf w ++ d)) = L -> H (w_buf w ++ d) = h ->
+  let s1 := fst (step (Write i d) s) in
+  snd (step (Write i d) s) = ROk
+  /\ (exists w1, nth_error (s_ws s1) i = Some w1 /\ w_fut w1 = FOk (w_buf w ++ d) /\ w_open w1 = false)
+  /\ In (QWfc i) (s_q s1).
+Proof.
+  intros s Hn O P El Lp Ln Hh s1.
+  destruct (reach_all ops) as (I & _). fold s in I.
+  destruct I as (_ & I2 & _). destruct (Forall_nth _ _ _ _ I2 Hn) as (_ & B & _).
+  destruct (B O P) as (Sb & _).
+  assert (Lv : live L w) by (repeat split; auto; lia).
+  unfold s1. simpl. unfold write. rewrite Hn. simpl. unfold app_w. rewrite Hn. rewrite El.
+  rewrite wr_write_live by auto. unfold live_result.
+  destruct (N.ltb_spec L (N.of_nat (length (w_buf w ++ d)))); [lia|].
+  destruct (N.eqb_spec (N.of_nat (length (w_buf w ++ d))) L); [|contradiction].
+  rewrite <- Hh. rewrite bytes_eqb_refl. simpl. repeat split; auto.
+  - eexists. erewrite nth_error_upd_eq by eauto. split; [reflexivity|]. simpl. auto.
+  - apply in_or_app; right. simpl; auto.
+Qed.
+
+Lemma stored_good s L : Inv s -> s_len s = Some L -> s_verified s = true ->
+  exists b, s_store s = Some b /\ H b = h /\ N.of_nat (length b) = L.
+Proof.
+  intros (_ & _ & _ & _ & I5 & I6 & _) El V. destruct (s_store s) as [b|] eqn:Es; [|exfalso; apply I6; auto].
+  destruct (I5 b eq_refl) as (L' & E1 & _ & E3 & E4). exists b. repeat split; auto. congruence.
+Qed.
+
+Lemma first_copy_wins ops i w d L :
+  let s := run ops init in
+  nth_error (s_ws s) i = Some w -> w_open w = true -> w_fut w = FPending -> s_len s = Some L -> (0 < L)%N ->
+  N.of_nat (length (w_buf w ++ d)) = L -> H (w_buf w ++ d) = h ->
+  let s1 := fst (step (Write i d) s) in
+  (* whatever operations follow: once the loop is idle and the executor has nothing pending, verified *)
+  (forall ops', let s' := run ops' s1 in s_q s' = [] -> s_io s' = None ->
+     s_verified s' = true /\ exists b, s_store s' = Some b /\ H b = h /\ N.of_nat (length b) = L)
+  (* and drain; io; drain reaches such a state, with the completion callback fired exactly once *)
+  /\ (let s4 := run [Drain; IoDone; Drain] s1 in
+      s_q s4 = [] /\ s_verified s4 = true /\ s_writing s4 = false
+      /\ (exists b, s_store s4 = Some b /\ H b = h /\ N.of_nat (length b) = L)
+      /\ s_completed s4 = if cb then 1%nat else 0%nat).
+Proof.
+  intros s Hn O P El Lp Ln Hh s1.
+  destruct (winning_write ops i w d L Hn O P El Lp Ln Hh) as (_ & (w1 & N1 & F1 & _) & Q1).
+  fold s in N1, Q1. fold s1 in N1, Q1.
+  assert (R1 : s1 = run (ops ++ [Write i d]) init) by (rewrite run_app; reflexivity).
+  assert (L1 : Live s1) by (right; right; exists i, w1, (w_buf w ++ d); auto).
+  assert (I21 : Inv2 s1) by (rewrite R1; apply Inv2_run, Inv2_init).
+  assert (I1 : Inv s1) by (rewrite R1; apply Inv_run, Inv_init).
+  assert (El1 : s_len s1 = Some L) by (apply step_len_kept; auto).
+  split.
+  - intros ops' s' Q Io.
+    assert (V : s_verified s' = true).
+    { apply Live_quiescent; auto. apply Inv2_run; auto. apply Live_run; auto. }
+    split; auto. apply stored_good; auto. apply Inv_run; auto. apply run_len_kept; auto.
+  - simpl. change (C01.drain kd cb ?x) with (drain kd cb x).
+    set (s4 := drain kd cb (io_done (drain kd cb s1))).
+    assert (V : s_verified s4 = true) by (apply wins_verified; auto).
+    assert (I4 : Inv s4) by (apply Inv_iter, Inv_io_done, Inv_iter; auto).
+    assert (I24 : Inv2 s4) by (apply Inv2_iter, Inv2_io_done, Inv2_iter; auto).
+    assert (Q4 : s_q s4 = []) by apply drain_quiescent.
+    assert (El4 : s_len s4 = Some L).
+    { unfold s4, drain. rewrite iter_len. unfold io_done. destruct (s_io _); simpl; rewrite iter_len; auto. }
+    repeat split; auto.
+    + destruct I24 as (_ & X & _). auto.
+    + apply stored_good; auto.
+    + destruct I24 as (_ & _ & X & _). rewrite Q4, V in X. change (cnt is_cp []) with 0%nat in X.
+      change (cnt is_up []) with 0%nat in X. destruct cb; simpl in X; lia.
+Qed.
+
+(* under the re-open discipline the winner also shuts every other writer down *)
+Lemma first_copy_closes_others ops i w d L :
+  let s := run ops init in
+  disciplined ops init ->
+  nth_error (s_ws s) i = Some w -> w_open w = true -> w_fut w = FPending -> s_len s = Some L -> (0 < L)%N ->
+  N.of_nat (length (w_buf w ++ d)) = L -> H (w_buf w ++ d) = h ->
+  let s1 := fst (step (Write i d) s) in
+  let s2 := run [Drain] s1 in
+  let s4 := run [Drain; IoDone; Drain] s1 in
+  (forall j wj, nth_error (s_ws s2) j = Some wj -> w_open wj = false /\ w_fut wj <> FPending)
+  /\ (forall j wj, nth_error (s_ws s4) j = Some wj -> w_open wj = false /\ w_fut wj <> FPending)
+  /\ length (s_ws s4) = length (s_ws s).
+Proof.
+  intros s Di Hn O P El Lp Ln Hh s1 s2 s4.
+  destruct (winning_write ops i w d L Hn O P El Lp Ln Hh) as (_ & (w1 & N1 & F1 & _) & Q1).
+  fold s in N1, Q1. fold s1 in N1, Q1.
+  assert (R1 : s1 = run (ops ++ [Write i d]) init) by (rewrite run_app; reflexivity).
+  destruct (reach_all ops) as (I & _ & _). fold s in I.
+  assert (Rg : Reg s) by (apply Reg_run; auto; [apply Inv_init|apply Reg_init]).
+  assert (Rg1 : Reg s1) by (apply Reg_step; simpl; auto).
+  assert (C1 : Cl s1) by (rewrite R1; apply Cl_run, Cl_init).
+  assert (Pw1 : PW s1) by (right; exists i, w1, (w_buf w ++ d); auto).
+  assert (Np2 : NP s2).
+  { apply PW_quiescent; [|apply drain_quiescent]. apply PW_iter; auto. }
+  assert (C2 : Cl s2) by (apply Cl_iter; auto).
+  assert (Q2 : s_q s2 = []) by apply drain_quiescent.
+  assert (Np4 : NP s4).
+  { unfold s4. simpl. eapply NP_mono; [apply wmono_iter|apply iter_nws|].
+    eapply NP_ws; [|exact Np2]. unfold io_done. destruct (s_io _); auto. }
+  assert (C4 : Cl s4) by (apply (Cl_run [Drain; IoDone; Drain]); auto).
+  assert (Q4 : s_q s4 = []) by apply drain_quiescent.
+  split; [|split].
+  - intros j wj Hj. destruct (all_closed s2 C2 Np2 Q2 j wj Hj) as (A & B). split; auto. apply fut_done_true; auto.
+  - intros j wj Hj. destruct (all_closed s4 C4 Np4 Q4 j wj Hj) as (A & B). split; auto. apply fut_done_true; auto.
+  - unfold s4. simpl. change (C01.drain kd cb ?x) with (drain kd cb x). unfold drain. rewrite iter_nws.
+    replace (length (s_ws (io_done (iter kd cb (fuel s1) s1)))) with (length (s_ws (iter kd cb (fuel s1) s1)))
+      by (unfold io_done; destruct (s_io _); auto).
+    rewrite iter_nws. unfold s1. simpl. unfold write. rewrite Hn. simpl. apply app_w_nws.
+Qed.
+
+(* the completion callback never fires twice *)
+Lemma completed_at_most_once ops : (s_completed (run ops init) <= 1)%nat.
+Proof.
+  destruct (reach_all ops) as (_ & (I1 & I2 & I3 & _) & _).
+  set (s := run ops init) in *. unfold stage_q in I1.
+  destruct cb; [|lia]. destruct (s_verified s) eqn:V.
+  - rewrite I2 in I1 by auto. simpl in *. lia.
+  - simpl in *. destruct (s_writing s); simpl in I1; lia.
+Qed.
+
+(* ------------------------------------------------------------------------------------------ *)
+(* history level: the bytes a writer has hashed are exactly the chunks written to it, and its  *)
+(* future's state is determined by them                                                       *)
+(* ------------------------------------------------------------------------------------------ *)
+Definition seen0 (s : state) (i : nat) : bytes :=
+  match nth_error (s_ws s) i with Some w => w_seen w | None => [] end.
+
+Lemma seen0_ws s s' i : s_ws s' = s_ws s -> seen0 s' i = seen0 s i.
+Proof. unfold seen0. intros ->. auto. Qed.
+
+Lemma seen0_app_w g j s i : (forall w, w_seen (fst (g w)) = w_seen w) -> seen0 (app_w g j s) i = seen0 s i.
+Proof.
+  intros Hg. unfold app_w, seen0. destruct (nth_error (s_ws s) j) eqn:Hj; auto.
+  destruct (g w) as [w' fl] eqn:Eg. simpl. destruct (Nat.eq_dec j i) as [->|Hne].
+  - erewrite nth_error_upd_eq by eauto. rewrite Hj. specialize (Hg w). rewrite Eg in Hg. auto.
+  - rewrite nth_error_upd_neq by auto. auto.
+Qed.
+
+Lemma seen_close w : w_seen (fst (close_handle_w w)) = w_seen w.
+Proof. unfold close_handle_w. destruct (fut_done (w_fut w)); auto. Qed.
+Lemma seen_cancel w : w_seen (fst (cancel_w w)) = w_seen w.
+Proof. unfold cancel_w. destruct (fut_done (w_fut w)); auto. Qed.
+
+Lemma seen0_fold {A} (g : A -> state -> state) l s i :
+  (forall x st, seen0 (g x st) i = seen0 st i) -> seen0 (fold_right g s l) i = seen0 s i.
+Proof. intros Hg. induction l; simpl; auto. rewrite Hg; auto. Qed.
+
+Lemma seen0_set_map m s i : seen0 (set_map m s) i = seen0 s i.
+Proof. reflexivity. Qed.
+
+Lemma seen0_close_others j s i : seen0 (close_others j s) i = seen0 s i.
+Proof.
+  unfold close_others. rewrite seen0_set_map.
+  apply seen0_fold. intros x st. destruct (Nat.eqb (snd x) j); auto. apply seen0_app_w. apply seen_close.
+Qed.
+
+Lemma seen0_close_blob s i : seen0 (close_blob s) i = seen0 s i.
+Proof.
+  unfold close_blob. rewrite seen0_set_map.
+  apply seen0_fold. intros x st. apply seen0_app_w. apply seen_cancel.
+Qed.
+
+Lemma seen0_run_item it s i : seen0 (run_item kd cb it s) i = seen0 s i.
+Proof.
+  destruct it; simpl; try (apply seen0_ws; reflexivity).
+  - apply seen0_app_w. apply seen_close.
+  - destruct (nth_error (s_ws s) i0); auto. destruct (w_fut w); auto.
+    rewrite (seen0_ws (close_others i0 s) (save_verified kd b (close_others i0 s)) i (save_verified_ws b _)). apply seen0_close_others.
+  - destruct kd; [apply seen0_ws; reflexivity|]. destruct (s_store s); apply seen0_ws; reflexivity.
+Qed.
+
+Lemma seen0_step1 s i : seen0 (step1 kd cb s) i = seen0 s i.
+Proof. unfold step1. destruct (s_q s); auto. rewrite seen0_run_item. apply seen0_ws; reflexivity. Qed.
+
+Lemma seen0_iter n s i : seen0 (iter kd cb n s) i = seen0 s i.
+Proof. revert s; induction n; simpl; auto. intros. rewrite IHn. apply seen0_step1. Qed.
+
+(* a result "counts" when HashBlobWriter.write got past its two guards, i.e. hashed the chunk *)
+Definition counts (r : res) : bool := match r with ROk | RInvalid => true | _ => false end.
+
+Definition contrib (i : nat) (o : op) (r : res) : bytes :=
+  match o with Write j d => if (Nat.eqb j i && counts r)%bool then d else [] | _ => [] end.
+
+Lemma step_seen0 o s i : Inv s -> seen0 (fst (step o s)) i = seen0 s i ++ contrib i o (snd (step o s)).
+Proof.
+  intros I. destruct o; simpl; rewrite ?app_nil_r.
+  - apply seen0_ws. unfold set_length. destruct (s_len s); auto.
+    destruct ((0 <=? n)%Z && (n <=? Z.of_N MAX_BLOB_SIZE)%Z); auto.
+  - unfold open_writer. destruct (file_exists kd s); simpl; auto.
+    match goal with |- context [if ?c then _ else _] => destruct c end; simpl; auto.
+    unfold seen0; simpl. destruct (Nat.lt_ge_cases i (length (s_ws s))) as [Hi|Hi].
+    + rewrite nth_error_app1 by auto. auto.
+    + rewrite nth_error_app2 by auto. assert (Hn : nth_error (s_ws s) i = None) by (apply nth_error_None; auto).
+      rewrite Hn. destruct (i - length (s_ws s))%nat as [|n0]; simpl; auto. destruct n0; auto.
+  - unfold write. destruct (nth_error (s_ws s) i0) as [w|] eqn:Hw; simpl; [|rewrite andb_false_r, app_nil_r; auto].
+    destruct (Nat.eqb_spec i0 i) as [->|Hne]; simpl.
+    + unfold app_w, seen0. rewrite Hw. destruct (fst (wr_write (s_len s) w d)) as [w' fl] eqn:Ew. simpl.
+      erewrite nth_error_upd_eq by eauto.
+      destruct I as (_ & I2 & _). destruct (Forall_nth _ _ _ _ I2 Hw) as (_ & _ & C & _).
+      revert Ew. unfold C01.wr_write. destruct (s_len s) as [L|]; simpl.
+      2:{ intros E; inversion E; subst. rewrite app_nil_r; auto. }
+      break_ifs; intros E; inversion E; subst; simpl; rewrite ?app_nil_r; auto.
+      exfalso. norm_hyps. apply C; auto.
+    + rewrite app_nil_r. unfold app_w, seen0. rewrite Hw.
+      destruct (fst (wr_write (s_len s) w d)) as [w' fl]. simpl. rewrite nth_error_upd_neq by auto. auto.
+  - apply seen0_app_w. apply seen_close.
+  - apply seen0_close_blob.
+  - apply seen0_iter.
+  - apply seen0_iter.
+  - apply seen0_ws. unfold io_done. destruct (s_io s); auto.
+Qed.
+
+Fixpoint written (i : nat) (ops : list op) (rs : list res) : bytes :=
+  match ops, rs with
+  | o :: ops', r :: rs' => contrib i o r ++ written i ops' rs'
+  | _, _ => []
+  end.
+
+Definition results (ops : list op) (s : state) : list res := map snd (run_log H h kd cb ops s).
+
+Lemma seen_trace ops : forall s i, Inv s -> seen0 (run ops s) i = seen0 s i ++ written i ops (results ops s).
+Proof.
+  induction ops as [|o r IH]; intros s i I; simpl.
+  - rewrite app_nil_r; auto.
+  - rewrite IH by (apply Inv_step; auto). rewrite step_seen0 by auto. rewrite <- app_assoc. reflexivity.
+Qed.
+
+(* the future's state is a function of what was hashed *)
+Definition w_hist (len : option N) (w : writer) : Prop :=
+  (forall b, w_fut w = FOk b -> b = w_seen w /\ w_open w = false)
+  /\ (w_fut w = FErrLen -> w_open w = false /\ exists L, len = Some L /\ (L < N.of_nat (length (w_seen w)))%N)
+  /\ (w_fut w = FErrHash -> w_open w = false /\
+       exists L, len = Some L /\ N.of_nat (length (w_seen w)) = L /\ H (w_seen w) <> h).
+
+Lemma w_hist_close len w : w_hist len w -> w_hist len (fst (close_handle_w w)).
+Proof.
+  intros (A & B & C). unfold close_handle_w. destruct (fut_done (w_fut w)) eqn:D; simpl.
+  - repeat split; simpl; auto; intros; try (apply A; auto); try (apply B; auto); try (apply C; auto).
+  - repeat split; simpl; auto; try (intros; discriminate).
+Qed.
+
+Lemma w_hist_cancel len w : w_hist len w -> w_hist len (fst (cancel_w w)).
+Proof.
+  intros Hw. unfold cancel_w. destruct (fut_done (w_fut w)) eqn:D; simpl; auto.
+  repeat split; simpl; auto; try (intros; discriminate).
+Qed.
+
+Lemma w_hist_write len w d : w_ok len w -> w_hist len w -> w_hist len (fst (fst (wr_write len w d))).
+Proof.
+  intros Hok Hw. unfold C01.wr_write. destruct len as [L|]; simpl; auto.
+  break_ifs; auto; norm_hyps.
+  all: destruct Hok as (_ & B & _); destruct Hw as (A1 & A2 & A3); unfold w_hist; simpl.
+  all: repeat match goal with |- _ /\ _ => split end; auto; try (intros; discriminate); try congruence.
+  all: try (intros b Eb; destruct (A1 b Eb) as (_ & X); congruence).
+  all: try (intros Eb; destruct (A2 Eb) as (X & _); congruence).
+  all: try (intros Eb; destruct (A3 Eb) as (X & _); congruence).
+  all: try (intros _; split; auto; exists L; repeat split; auto; fail).
+  - intros b Eb. inversion Eb; subst. destruct (B Heqb0 Heqb4) as (S1 & _). rewrite S1. auto.
+Qed.
+
+Section Gen.
+Variable P : writer -> Prop.
+Hypothesis Pclose : forall w, P w -> P (fst (close_handle_w w)).
+Hypothesis Pcancel : forall w, P w -> P (fst (cancel_w w)).
+
+Lemma gen_app_w g j s : (forall w, P w -> P (fst (g w))) -> Forall P (s_ws s) -> Forall P (s_ws (app_w g j s)).
+Proof.
+  intros Hg F. unfold app_w. destruct (nth_error (s_ws s) j) eqn:Hj; auto.
+  destruct (g w) as [w' fl] eqn:Eg. simpl. apply Forall_upd; auto.
+  replace w' with (fst (g w)) by (rewrite Eg; auto). apply Hg. eapply Forall_nth; eauto.
+Qed.
+
+Lemma gen_fold {A} (g : A -> state -> state) l s :
+  (forall x st, Forall P (s_ws st) -> Forall P (s_ws (g x st))) -> Forall P (s_ws s) -> Forall P (s_ws (fold_right g s l)).
+Proof. intros Hg Hs. induction l; simpl; auto. Qed.
+
+Lemma gen_close_others i s : Forall P (s_ws s) -> Forall P (s_ws (close_others i s)).
+Proof.
+  intros F. unfold close_others; simpl. apply gen_fold; auto. intros x st Hst.
+  destruct (Nat.eqb (snd x) i); auto. apply gen_app_w; auto.
+Qed.
+
+Lemma gen_close_blob s : Forall P (s_ws s) -> Forall P (s_ws (close_blob s)).
+Proof. intros F. unfold close_blob; simpl. apply gen_fold; auto. intros x st Hst. apply gen_app_w; auto. Qed.
+
+Lemma gen_run_item it s : Forall P (s_ws s) -> Forall P (s_ws (run_item kd cb it s)).
+Proof.
+  intros F. destruct it; simpl; auto.
+  - apply gen_app_w; auto.
+  - destruct (nth_error (s_ws s) i); auto. destruct (w_fut w); auto. rewrite save_verified_ws. apply gen_close_others; auto.
+  - destruct kd; auto. destruct (s_store s); auto.
+Qed.
+
+Lemma gen_iter n s : Forall P (s_ws s) -> Forall P (s_ws (iter kd cb n s)).
+Proof.
+  revert s; induction n; simpl; auto. intros s F. apply IHn. unfold step1. destruct (s_q s); auto.
+  apply gen_run_item. auto.
+Qed.
+End Gen.
+
+Definition Hist (s : state) : Prop := Forall (w_hist (s_len s)) (s_ws s).
+
+Lemma w_hist_set_len w L : w_hist None w -> w_hist (Some L) w.
+Proof.
+  intros (A & B & C). repeat split; auto; try (apply A; auto).
+  - apply B; auto.
+  - intros E. destruct (B E) as (_ & L0 & X & _). discriminate.
+  - apply C; auto.
+  - intros E. destruct (C E) as (_ & L0 & X & _). discriminate.
+Qed.
+
+Lemma Hist_step o s : Inv s -> Hist s -> Hist (fst (step o s)).
+Proof.
+  intros I Hs. unfold Hist in *. destruct o.
+  - simpl. unfold set_length. destruct (s_len s) eqn:El; [rewrite El; auto|].
+    destruct ((0 <=? n)%Z && (n <=? Z.of_N MAX_BLOB_SIZE)%Z); [|rewrite El; auto]. simpl.
+    eapply Forall_impl; [|exact Hs]. intros w. apply w_hist_set_len.
+  - rewrite step_len_other by (intros; discriminate). simpl. unfold open_writer.
+    destruct (file_exists kd s); simpl; auto.
+    match goal with |- context [if ?c then _ else _] => destruct c end; simpl; auto.
+    apply Forall_app; split; auto. constructor; auto. repeat split; simpl; intros; discriminate.
+  - rewrite step_len_other by (intros; discriminate). simpl. unfold write.
+    destruct (nth_error (s_ws s) i) eqn:Hi; simpl; auto.
+    unfold app_w. rewrite Hi. destruct (fst (wr_write (s_len s) w d)) as [w' fl] eqn:Ew. simpl.
+    apply Forall_upd; auto. replace w' with (fst (fst (wr_write (s_len s) w d))) by (rewrite Ew; auto).
+    apply w_hist_write. destruct I as (_ & I2 & _). eapply Forall_nth; eauto. eapply Forall_nth; eauto.
+  - rewrite step_len_other by (intros; discriminate). simpl. apply gen_app_w; auto. apply w_hist_close.
+  - rewrite step_len_other by (intros; discriminate). simpl. apply gen_close_blob; auto. apply w_hist_cancel.
+  - rewrite step_len_other by (intros; discriminate). simpl. apply gen_iter; auto. apply w_hist_close.
+  - rewrite step_len_other by (intros; discriminate). simpl. apply gen_iter; auto. apply w_hist_close.
+  - rewrite step_len_other by (intros; discriminate). simpl. unfold io_done. destruct (s_io s); auto.
+Qed.
+
+Lemma Hist_run ops : forall s, Inv s -> Hist s -> Hist (run ops s).
+Proof. induction ops; simpl; auto. intros. apply IHops. apply Inv_step; auto. apply Hist_step; auto. Qed.
+
+(* every writer, after any history: what it hashed is the concatenation of the chunks whose write() call got
+   past the guards, and the state of its future is determined by those bytes *)
+Lemma writer_history ops i w :
+  nth_error (s_ws (run ops init)) i = Some w ->
+  let t := written i ops (results ops init) in
+  let len := s_len (run ops init) in
+  w_seen w = t
+  /\ (forall b, w_fut w = FOk b -> b = t /\ exists L, len = Some L /\ N.of_nat (length t) = L /\ H t = h)
+  /\ (w_fut w = FErrLen -> exists L, len = Some L /\ (L < N.of_nat (length t))%N)
+  /\ (w_fut w = FErrHash -> exists L, len = Some L /\ N.of_nat (length t) = L /\ H t <> h)
+  /\ (w_fut w = FPending -> forall L, len = Some L -> L <> 0%N -> (N.of_nat (length t) < L)%N).
+Proof.
+  intros Hn t len.
+  assert (I : Inv (run ops init)) by (apply Inv_run, Inv_init).
+  assert (Hs : Hist (run ops init)) by (apply Hist_run; [apply Inv_init|constructor]).
+  assert (St : w_seen w = t).
+  { pose proof (seen_trace ops init i Inv_init) as X. unfold seen0 in X. rewrite Hn in X. simpl in X. exact X. }
+  destruct I as (_ & I2 & _). destruct (Forall_nth _ _ _ _ I2 Hn) as (A & B & C & _).
+  destruct (Forall_nth _ _ _ _ Hs Hn) as (G1 & G2 & G3). fold len in A, B, G2, G3.
+  rewrite St in *. split; auto. split; [|split; [|split]].
+  - intros b Eb. destruct (G1 b Eb) as (X & _). split; auto. destruct (A b Eb) as (L & E1 & _ & E3 & E4).
+    exists L. subst b. auto.
+  - intros E. destruct (G2 E) as (_ & X). auto.
+  - intros E. destruct (G3 E) as (_ & X). auto.
+  - intros E L EL Hne. destruct (w_open w) eqn:O; [|exfalso; apply C; auto].
+    destruct (B eq_refl E) as (_ & X). apply X; auto.
+Qed.
+
+End C01.
+
+(* ------------------------------------------------------------------------------------------ *)
+(* concrete histories used as non-vacuity examples in Props/C01.v (toy hash H b = b)          *)
+(* ------------------------------------------------------------------------------------------ *)
+Definition ex_Hid (b : bytes) : bytes := b.
+Definition ex_nm : bytes := [Byte.x01; Byte.x02; Byte.x03].
+Definition ex_ops1 : list op :=
+  [SetLength 3; Open 1; Open 2; Write 0 [Byte.x01]; Write 1 [Byte.x01]; Write 0 [Byte.x02; Byte.xff];
+   Write 1 [Byte.x02]; Tick].
+Definition ex_stale : list op :=
+  [SetLength 3; Open 1; Write 0 [Byte.x01; Byte.x02; Byte.x03; Byte.x04]; Open 1; Tick; Open 2;
+   Write 2 ex_nm; Drain; IoDone; Drain].
+
+Lemma ex_hypotheses :
+  let s := run ex_Hid ex_nm KFile true ex_ops1 init in
+  disciplined ex_Hid ex_nm KFile true ex_ops1 init
+  /\ (exists w, nth_error (s_ws s) 1 = Some w /\ w_open w = true /\ w_fut w = FPending
+                /\ w_buf w = [Byte.x01; Byte.x02]) /\ s_len s = Some 3%N.
+Proof.
+  vm_compute. split; [|split; [eexists; repeat split|reflexivity]].
+  repeat split; auto; intros X; repeat (destruct X as [X|X]; try discriminate); auto.
+Qed.
+
+Lemma ex_stale_orphan :
+  let s := run ex_Hid ex_nm KFile true ex_stale init in
+  (s_verified s, map w_open (s_ws s), map w_fut (s_ws s))
+    = (true, [false; true; false], [FErrLen; FPending; FOk ex_nm])
+  /\ ~ disciplined ex_Hid ex_nm KFile true ex_stale init.
+Proof.
+  split. vm_compute. reflexivity.
+  intros D. vm_compute in D. destruct D as (_ & _ & _ & X & _). apply X. right. left. reflexivity.
+Qed.
